@@ -149,7 +149,7 @@ def extra_coverage(stats):
 TECHNIQUE = "Lean 4 theorems (spellings agree, to_string round trip, decimal round trip, no silent wrap for all inputs; proved negation for the pre-fix code) + model/implementation correspondence on generated literals and numeric services"
 LEVEL_TEXT = ("Machine-checked Lean 4 theorems about the executable model of UriDissect / ParseHostServ / to_string: for every host text "
               "(subject to the stated side conditions: no ':' '/' for the plain form, no '/' and line terminators for the bracketed "
-              "form), every port < 65536, every \\w* scheme and every single-line path, all documented spellings are dissected to the "
+              "form), every port < 65536, every \\w* scheme and every single-line path, all documented spellings (incl. the service-less host/path whose first colon sits inside the free-text path: hostpath_spelling) are dissected to the "
               "same (host, decimal port) and the pair hands the same arguments to getaddrinfo; the text composed by to_string is "
               "dissected back to exactly (host, port); decimal rendering round-trips; and for EVERY input (URI or pair, any bytes) a "
               "service that reaches getaddrinfo and that strtoul reads completely is <= 65535 (no silent wrap; strict form: the written "
